@@ -190,15 +190,18 @@ def host_oracle(ctx, c, r, stats):
         ctx.fail("LCD() raised for a positive geometry", c, "object", r["new"], key="host-new")
         return
     valid = []
+    foreign = False
     for a, ra in zip(c["anims"], r["animate"]):
         ok_expected = str(a[0]).lower() in CODE and 0 <= int(a[1]) < rows
         if ok_expected and ra["status"] != "ok":
             ctx.fail("animate raised for a valid style and row", c, "ok", ra["status"], key="host-animate-raised")
             return
         if not ok_expected:
-            if ra["status"] != "ValueError":
-                ctx.fail("animate accepted an invalid style/row (rows must be validated at animate time)", c, "ValueError", ra["status"], key="host-animate-accepts")
-                return
+            # the statement does not say what animate does with an unknown style / a row outside the display
+            # (the real code raises ValueError; the correspondence compares that).  If such a call is accepted
+            # the per-animation relations below have no referent: only the global ones are evaluated.
+            if ra["status"] == "ok":
+                foreign = True
             continue
         if ra["sleeps"]:
             ctx.fail("animate called a sleep function (must not block)", c, 0, ra["sleeps"], key="host-animate-sleeps")
@@ -206,8 +209,19 @@ def host_oracle(ctx, c, r, stats):
             if ev[0] != int(a[1]) or len(ev[1]) != cols:
                 ctx.fail("animate wrote outside its row / not exactly the display width", c, [int(a[1]), cols], ev, key="host-animate-geometry")
         valid.append(a)
-    if len(r["snap"]["states"]) != len(valid):
-        ctx.fail("number of registered animations differs from the successful animate calls", c, len(valid), len(r["snap"]["states"]), key="host-registered")
+    if foreign or len(r["snap"]["states"]) != len(valid):
+        # something is registered that no successful, valid animate call accounts for: global relations only
+        for k, rt in enumerate(r["ticks"]):
+            if rt["status"] != "ok":
+                ctx.fail("LCD.tick raised", c, "no exception", rt["status"], key="host-tick-raised")
+                return
+            if rt["sleeps"]:
+                ctx.fail("LCD.tick called a sleep function (must not block)", c, 0, rt["sleeps"], key="host-tick-sleeps")
+                return
+            buf = rt["snap"]["buffer"]
+            if len(buf) != rows or any(len(x) != cols for x in buf):
+                ctx.fail("buffer shape changed", c, [rows, cols], buf, key="host-buffer-shape")
+                return
         return
     n = len(valid)
     anim_rows = {int(a[1]) for a in valid}
